@@ -35,6 +35,8 @@ def run(chk: Check):
     c2 = (0.8, 0.1, 0.6, 3, 0.05)
     traces += D.engine_traces(["rw", "mh_on", "mh_off"], c1, D.SCHEDULES[0], chains=2, seed=chk.seed)
     traces += D.engine_traces(["iwls"], c2, D.SCHEDULES[1], chains=2, seed=chk.seed + 1)
+    # epochs sampled in several chunks; a random walk on a parameter with bounded support (NaN ratios -> acceptance 0)
+    traces += D.engine_traces(["rw", "rw_support"], c1, D.SCHEDULES[3], chains=2, seed=chk.seed + 8)
     if not chk.quick:
         traces += D.engine_traces(["rw", "mh_on", "mh_off"], c2, D.SCHEDULES[1], chains=3, seed=chk.seed + 2)
         traces += D.engine_traces(["iwls", "mh_on"], c1, D.SCHEDULES[0], chains=2, seed=chk.seed + 3)
